@@ -32,7 +32,9 @@ class Cadence(collections.abc.MutableSequence):
         if not frame_list is None:
             self.extend(frame_list)
         
-        self.t_slew = t_slew
+        # A Python float: start times of ~1e9 s plus a single-precision slew time would be 
+        # rounded to single precision (steps of 128 s)
+        self.t_slew = float(t_slew)
         self.t_overwrite = t_overwrite
         if t_overwrite:
             self.overwrite_times()
@@ -150,7 +152,7 @@ class Cadence(collections.abc.MutableSequence):
         frames.
         """
         for i, frame in enumerate(self.frames[1:]):
-            frame.t_start = self.frames[i].t_stop + self.t_slew
+            frame.t_start = float(self.frames[i].t_stop) + float(self.t_slew)
             
     @property
     def slew_times(self):
